@@ -49,7 +49,7 @@ HintedOf(U, n) == IF ~U.pkg[n].exists THEN {}
 GRP0 == [id |-> 0, kind |-> "", sol |-> <<>>, msg |-> "", calls |-> <<>>, profile |-> ""]
 BB0 == [callseq |-> <<>>, dcalls |-> {}, ccalls |-> {}, dret |-> {}, cret |-> {}, kreqs |-> {}, knames |-> {},
         cancelSeen |-> FALSE, cancelVal |-> 0, prevSolves |-> 0, callsThisSolve |-> 0]
-WB0 == [cls |-> <<>>, nlearnt |-> 0, trail |-> <<>>, lv |-> <<>>, why |-> <<>>, base |-> 0, unsat |-> 0, A |-> {}, vsolv |-> <<>>, vhelp |-> <<>>, on |-> FALSE]
+WB0 == [cls |-> <<>>, nlearnt |-> 0, trail |-> <<>>, lv |-> <<>>, why |-> <<>>, base |-> 0, unsat |-> 0, nrestart |-> 0, softlearnt |-> 0, A |-> {}, vsolv |-> <<>>, vhelp |-> <<>>, on |-> FALSE]
 
 Init == /\ l = 1
         /\ ctx = [id |-> -1, k |-> 0, begin |-> 0]
@@ -135,7 +135,7 @@ Quiescent ==
   /\ (IF Len(Rec[l].pending) >= 2 THEN Cover(<<"quiescent2">>) ELSE TRUE)
 
 Skip == /\ l <= Len(Rec)
-        /\ Rec[l].ev \in {"blockon", "blockdone", "complete", "skipped", "verdict", "restart", "end"}
+        /\ Rec[l].ev \in {"blockon", "blockdone", "complete", "skipped", "verdict", "end"}
         /\ l' = l + 1 /\ UNCHANGED <<ctx, bb, wb, grp>>
 
 (***************************************************************************)
@@ -194,6 +194,10 @@ TrueFact(r) ==
 RunSat ==
   /\ E("runsat") /\ UNCHANGED <<ctx, bb, grp>>
   /\ wb' = [wb EXCEPT !.base = IF Rec[l].start > 0 THEN Len(wb.trail) ELSE 0]
+
+Restart ==
+  /\ E("restart") /\ UNCHANGED <<ctx, bb, grp>>
+  /\ wb' = [wb EXCEPT !.nrestart = wb.nrestart + 1]
 
 Var ==
   /\ E("var") /\ UNCHANGED <<ctx, bb, grp>>
@@ -303,7 +307,8 @@ Learnt ==
      /\ Chk("C03", \A i \in Range(Rec[l].why) : HasClause(i), "C03_WhyLogged", Rec[l].why)
      /\ Chk("C03", RUP({ClauseLits(i) : i \in {j \in Range(Rec[l].why) : HasClause(j)}}, ls),
               "C03_LearntFromWhy", Rec[l].id)
-     /\ wb' = [wb EXCEPT !.cls = Append(wb.cls, l), !.nlearnt = wb.nlearnt + 1]
+     /\ wb' = [wb EXCEPT !.cls = Append(wb.cls, l), !.nlearnt = wb.nlearnt + 1,
+                         !.softlearnt = IF wb.base > 0 THEN wb.softlearnt + 1 ELSE wb.softlearnt]
 
 \* learnt clauses from which a learnt clause was derived, transitively
 RECURSIVE LearntAnc(_)
@@ -426,7 +431,10 @@ ResultSat(r) ==
                      \o (IF cf /\ p.soft = <<>> /\ NoHints(u) /\ bb.prevSolves = 0 THEN <<"exactcalls">> ELSE <<>>)
                      \o (IF bb.prevSolves > 0 THEN <<"reused">> ELSE <<>>)
                      \o (IF bb.prevSolves > 0 /\ bb.callsThisSolve = 0 THEN <<"reused_nocalls">> ELSE <<>>)
-                     \o (IF wb.on /\ wb.nlearnt > 0 THEN <<"learnt">> ELSE <<>>))
+                     \o (IF wb.on /\ wb.nlearnt > 0 THEN <<"learnt">> ELSE <<>>)
+                     \o (IF wb.on /\ wb.nlearnt >= 3 THEN <<"learnt3">> ELSE <<>>)
+                     \o (IF wb.on /\ wb.nrestart > 0 THEN <<"restarted">> ELSE <<>>)
+                     \o (IF wb.on /\ wb.softlearnt > 0 THEN <<"softrun_learnt">> ELSE <<>>))
 
 (***************************************************************************)
 (* Operational model of Conflict::graph (src/conflict.rs): the conflict     *)
@@ -505,7 +513,10 @@ ResultUnsat(r) ==
                        \o (IF Cardinality(SolvNodes(G)) >= 4 THEN <<"graph4">> ELSE <<>>)
                        \o (IF p.soft # <<>> THEN <<"soft">> ELSE <<>>)
                        \o (IF bb.prevSolves > 0 THEN <<"reused">> ELSE <<>>)
-                       \o (IF wb.on /\ wb.nlearnt > 0 THEN <<"learnt">> ELSE <<>>))
+                       \o (IF wb.on /\ wb.nlearnt > 0 THEN <<"learnt">> ELSE <<>>)
+                     \o (IF wb.on /\ wb.nlearnt >= 3 THEN <<"learnt3">> ELSE <<>>)
+                     \o (IF wb.on /\ wb.nrestart > 0 THEN <<"restarted">> ELSE <<>>)
+                     \o (IF wb.on /\ wb.softlearnt > 0 THEN <<"softrun_learnt">> ELSE <<>>))
 
 \* C04 (rendering) on a graph that was assembled from the facts of the universe
 \* instead of being produced by a solve (harness/src/synth.rs).  Conflict.tla decides
@@ -586,7 +597,7 @@ Result ==
        [] OTHER -> Fail("T_UnknownResult", r.kind)
 
 Next == \/ Begin \/ Poll \/ Call \/ Ret \/ CacheQuery \/ Quiescent \/ Skip
-        \/ RunSat \/ Var \/ ClauseEv \/ Assign \/ Undo \/ Learnt \/ UnsatIds \/ Result
+        \/ RunSat \/ Restart \/ Var \/ ClauseEv \/ Assign \/ Undo \/ Learnt \/ UnsatIds \/ Result
 
 Spec == Init /\ [][Next]_vars
 
